@@ -284,7 +284,7 @@ FUNCTIONS = {
 }
 
 
-LEMMA_MODULE = {"C05": "kv.props.c05l"}
+LEMMA_MODULE = {"C05": "kv.props.c05l", "C01": "kv.props.c01l", "C02": "kv.props.c01l", "C03": "kv.props.c01l"}
 
 
 def check(prop, tier, extra_tasks=None, assumptions=None):
@@ -360,7 +360,7 @@ def check(prop, tier, extra_tasks=None, assumptions=None):
                 "shape_deviation_depth_max": opts["max_dev"], "paths_per_class_cap": opts["class_paths"],
                 "integers": "every fixed-width integer field over its whole range, simultaneously", "tail_bytes": 2},
         outside=["array lengths > %d" % opts["max_array"], "payload lengths >= 2^31", "shape combinations beyond the recorded deviation depth",
-                 "time-typed fields take the listed representatives (whole domain decided by the C05/C11/C12 lemmas)",
+                 "time-typed fields take the listed representatives inside entities (their whole value domain is decided at primitive level: lemmas listed under primitive_wire_domain_lemmas for C01/C05, otherwise C11/C12)",
                  "payload content (opaque; A3)"],
         rule="one state = one completed symbolic path of the real reader/writer for one (class, shape); distinct by construction (DFS over decision prefixes)",
         extra={"classes_checked": len(targets) - len(skipped), "classes_not_reached_within_wall_budget": len(skipped), "classes_not_reached_sample": skipped[:20],
